@@ -339,10 +339,15 @@ def sdkSide (s : State) : State :=
 def initDeposits (ds : List (Addr × Coins)) (s : State) : State :=
   { s with deposits := ds.foldl (fun t d => t.set d.1 d.2) s.deposits }
 
+/-- `k.SetParams` of the node module, as `node.InitGenesis` calls it: every parameter is written, and the params
+subspace marks every written key as modified in its *transient* store. A genesis and the first block after it
+share one commit (the transient store is reset at Commit), so all four price-bound flags are set in the imported
+state — as in `Genesis.base` (Run.lean) — and the first `endBlock` after an import runs the node price sweep. -/
 def setNodeParams (s : State) (p : NodeParams) : State :=
   { s with params := { s.params with nodeDeposit := p.deposit, activeDur := p.activeDur, maxGB := p.maxGB, minGB := p.minGB,
                                        maxHr := p.maxHr, minHr := p.minHr, maxSubGB := p.maxSubGB, minSubGB := p.minSubGB,
-                                       maxSubHr := p.maxSubHr, minSubHr := p.minSubHr, nodeShare := p.share } }
+                                       maxSubHr := p.maxSubHr, minSubHr := p.minSubHr, nodeShare := p.share }
+           modified := { maxGB := true, minGB := true, maxHr := true, minHr := true } }
 
 def initNodeStep (s : State) (n : Node) : M State := do
   let s1 ← setNode s n
@@ -411,7 +416,9 @@ def initGenesis (base : State) (g : VpnGenesis) (w : SwapGenesis) (m : MintGenes
   let s ← initVpn g base
   pure (initMint m (initSwap w s))
 
-/-- Export, validate, import. `none`: the export panics, the exported genesis is invalid, or the import panics. -/
+/-- Export, validate, import. `none`: the export panics, the exported genesis is invalid, or the import panics.
+The imported state is a genesis that has not been committed yet: its four `modified` flags are set
+(`setNodeParams`), so the next `endBlock` re-prices every node against the imported bounds. -/
 def reimport (s : State) : Option State :=
   if exportPanics s then none else
   match validateGenesis (exportVpn s) (exportSwap s) (exportMint s) with
